@@ -7,6 +7,7 @@ that output against the implementation trace.  `judge` mode runs the specificati
 import NV.Common.Proto
 import NV.C02.Model
 import NV.C02.Spec
+import NV.C02.LexBuf
 
 namespace NV.C02
 
@@ -84,7 +85,34 @@ def parseLine (line : String) : Line :=
 def continuation (n : String) : Bool :=
   ["local.name", "local.pop", "locals.realloc.type", "locals.realloc.name", "literal.enter.type",
    "literal.enter.name", "literal.leave.type", "literal.leave.name", "local.reactivate", "mem.alloc", "mem.before", "inc.num",
-   "lex.start.if", "lex.start.fnflag", "lex.end.if", "ident.free_unused"].contains n
+   "lex.start.if", "lex.start.fnflag", "lex.end.if", "ident.free_unused",
+   "lbuf.add.scan.nl", "lbuf.add.scan.eof", "lbuf.add.toolong", "lbuf.add.overflow", "lbuf.add.new", "lbuf.add.newend",
+   "lbuf.add.inplace"].contains n
+
+/-- one `add_input` call replayed through `addInput`: the request line carries (outptr offset, strlen), the scan line
+    (present only on the no-room path) what the walk to the end of the line found.  Inside a buffer that add_input
+    allocated itself (`inAdd`) the model also predicts the scan: the newline sits at DEFMAX - addEndSlack - 1. -/
+def replayAdd (inAdd : Bool) (outp len : Nat) (rest : List Line) : List Out :=
+  let reqName := if inAdd then "lbuf.add.req.a" else "lbuf.add.req"
+  let traced : Option (Bool × Nat × Int) := match rest with
+    | .out (.ev "lbuf.add.scan.nl" r a) :: _ => some (true, r.toNat, a)
+    | .out (.ev "lbuf.add.scan.eof" r a) :: _ => some (false, r.toNat, a)
+    | _ => none
+  let scan : Option (Bool × Nat) :=
+    if inAdd then
+      (if outp + NV.Gen.C02.addEndSlack + 1 ≤ NV.Gen.C02.defmax then some (true, NV.Gen.C02.defmax - NV.Gen.C02.addEndSlack - 1 - outp) else none)
+    else traced.map (fun t => (t.1, t.2.1))
+  let avail : Int := if inAdd then ((NV.Gen.C02.defmax - NV.Gen.C02.addEndSlack - 1 - outp : Nat) : Int)
+                     else match traced with | some t => t.2.2 | none => 0
+  let scanLine (sc : Bool × Nat) : Out := .ev (if sc.1 then "lbuf.add.scan.nl" else "lbuf.add.scan.eof") sc.2 avail
+  let req := Out.ev reqName outp len
+  match addInput outp len scan, scan with
+  | .tooLong, _ => [req, .ev "lbuf.add.toolong" 0 0]
+  | .inplace o, _ => [req, .ev "lbuf.add.inplace" o NV.Gen.C02.defmax]
+  | .overflow false, _ => [req, .crash "add_input: no room and no scan in the trace"]
+  | .overflow true, some sc => [req, scanLine sc, .ev "lbuf.add.overflow" 0 0]
+  | .fresh o e, some sc => [req, scanLine sc, .ev "lbuf.add.new" o NV.Gen.C02.defmax, .ev "lbuf.add.newend" e (NV.Gen.C02.defmax - 1)]
+  | _, _ => [req, .crash "add_input: inconsistent replay"]
 
 /-- the identifier line that follows `local.type` (within the same add_local_name) -/
 def findIdent : List Line → Nat → Option (Id × Bool × Int)
@@ -161,6 +189,11 @@ def replayGo : List Line → List String → Replay → Replay
       replayGo ls raws { r with out := raw :: r.out }
     | .truncated => replayGo ls raws { r with out := raw :: r.out, echo := true }
     | .out (.ev name c sz) =>
+      if name.startsWith "obs." then replayGo ls raws { r with out := raw :: r.out } else
+      if name == "lbuf.add.req" || name == "lbuf.add.req.a" then
+        let os := replayAdd (name == "lbuf.add.req.a") c.toNat sz.toNat ls
+        replayGo ls raws { r with out := (os.map render).reverse ++ r.out }
+      else
       match toEvent r.st name c sz ls with
       | .error msg => replayGo ls raws { r with out := msg :: r.out }
       | .ok none => replayGo ls raws r
